@@ -275,8 +275,20 @@ def lift(x):
         xf = float(x)
         if xf != xf or xf in (float("inf"), float("-inf")):
             raise TypeError("non-finite float in symbolic arithmetic")
-        return P.const(F(xf)), ONE
+        return P.const(float_to_fraction(xf)), ONE
     raise TypeError(type(x))
+
+
+def float_to_fraction(xf):
+    """float constants are read as the simple fraction they were written as (2/3, 0.65, 1.1, ...) when they are within
+    rounding distance of one with denominator <= 1000; otherwise exactly (binary expansion)"""
+    fr = F(xf)
+    if fr.denominator <= 1000:
+        return fr
+    near = fr.limit_denominator(1000)
+    if abs(float(near) - xf) <= 4e-16 * max(1.0, abs(xf)):
+        return near
+    return fr
 
 
 class SReal:
